@@ -4,6 +4,7 @@ Proof step (Props/C08.v) + correspondence (random and table-driven definition se
 unique marker; Model/Defs.v's verdict and placement vs the real compiler's) + marker counting on the real output
 as the direct oracle / search.  (misc triage) Declaration sequences over the kinds function / saved decorated
 function / template against Model/DeclNames.v; decorated functions declared inside function bodies of classes.
+(round 4) Declarations and USES in one compile against Model/DeclUse.v (harness/c08_uses.py).
 """
 from __future__ import annotations
 
@@ -12,6 +13,7 @@ import os
 import re
 from pathlib import Path
 
+import c08_uses
 from lib import (Check, COMMON_TRUSTED, VERIF, compile_batch, coq_bool, coq_list, coq_str, known_for, parse_nat_list,
                  run_coq_files, run_py, gen_dir)
 
@@ -1678,6 +1680,13 @@ def main(tier: str) -> int:
         "sequences (Run/C08.v dcase_code; names -> paths by Model/ResLoc.v convention).  The variant (repaired / pinned) is chosen by one probe "
         "program; ds_spec (plain Python) is the documented verdict.  Outside that model, plain oracle only (DS_HAND): declarations of the same "
         "path nested in each other's bodies, the `_` idiom (deleted from lazy_func by its first call; `@if` on `_` = instant call)",
+        "Model/DeclUse.v (round 4): hand-written port of what a declaration / a USE does to DataPack.functions, lazy_func (with the template "
+        "bodies, re-run at every use) and functions_called, incl. the instant-call rule (`func.split('/')[-1] == '_'` at both call sites, "
+        "`pre_func.func_name == '_'` in If.modify), the one-command rule of `execute … run <template>()` and build()'s never-defined check; "
+        "tied by comparing verdict, cited declaration, the commands of every function file and of the load function on generated nested "
+        "programs (harness/c08_uses.py; Run/C08.v ucase_code); c08_uses.spec (plain Python) is the documented verdict (= the behaviour of HEAD "
+        "370d5d7).  Outside: template parameters other than one keyword argument passed exactly, `@if(0)`, an instant call written directly "
+        "in a class body (refused), templates that expand themselves (RecursionError in jmc; never generated)",
         "KNOWN-FINDING is printed only for a failing input that matches an entry of known_findings.json or of reports/misc-known-findings-4.json "
         "(proposed entries, deleted by the integrator when the fix is committed; ignored with VERIF_NO_PROPOSED=1)",
         "user definitions at compiler-generated names (every built-in probe of harness/c07.py x every file it makes the compiler write, two jmc.txt "
@@ -1968,6 +1977,75 @@ def main(tier: str) -> int:
                     callers=sum(1 for d in dcases for e in d["seq"] if e[0] == "call"),
                     expansions_checked=sum(1 for d in dcases if d["real"][0] == "ok" for c in d["real"][2] if c[1] == "expand"))
 
+    # ---- (round 4) declarations and USES in one compile against Model/DeclUse.v + the plain oracle c08_uses.spec
+    ucases = c08_uses.cases(rng, tier)
+    ures = compile_batch([u["job"] for u in ucases], chunk=120)
+    u_verdicts, u_fail = {}, 0
+    for u, r in zip(ucases, ures):
+        u["real"] = c08_uses.real(u["evs"], r)
+        u["spec"] = c08_uses.spec(u["evs"])
+        u["same"] = c08_uses.same(u["real"], u["spec"])
+        v = u["real"][0] + ("" if u["same"] else "/spec-" + u["spec"][0])
+        u_verdicts[v] = u_verdicts.get(v, 0) + 1
+    ufiles = []
+    per_u = 200
+    for fi, start in enumerate(range(0, len(ucases), per_u)):
+        body = (c08_uses.HEADER + "Definition cases := [\n" + ";\n".join(c08_uses.case_term(u, flags["strict"]) for u in ucases[start:start + per_u])
+                + "\n].\nEval vm_compute in ucodes cases.\n")
+        ufiles.append((f"uses_{fi}.v", body))
+    ucodes = {}
+    for fi, (ok, out) in enumerate(run_coq_files(PROP, ufiles, timeout=900, clean=False)):
+        if not ok:
+            ck.violation(dict(kind="correspondence-file-failed", file=ufiles[fi][0], log=out[-3000:]), no_input=True)
+            continue
+        for j, cd in enumerate(parse_nat_list(out)):
+            ucodes[fi * per_u + j] = cd
+    for ui, u in enumerate(ucases):
+        if not u["same"]:
+            u_fail += 1
+            kind = c08_uses.classify(u["spec"], u["real"])
+            key = ("uses", kind)
+            if key not in reported and len([k for k in reported if isinstance(k, tuple) and k[0] == "uses"]) < 4:
+                reported.add(key)
+                ck.violation(dict(kind=kind, program=u["job"]["src"], header=None, namespace="TEST", pack_format=48, origin=u["origin"],
+                                  job=u["job"], uses_evs=u["evs"], model_agrees_with_real=ucodes.get(ui) == 0,
+                                  expected=dict(text=c08_uses.EXPECTED_TEXT, verdict=u["spec"]), actual=u["real"]))
+        elif ucodes.get(ui, 0) and ("uses-corr",) not in reported:
+            reported.add(("uses-corr",))
+            ck.violation(dict(kind="correspondence-differs", what="Model/DeclUse.v (via Run/C08.v ucase_code) and the real compiler disagree",
+                              code=ucodes[ui], note="1 verdict; 2 cited declaration / path; 3 a function file vs `functions`; 4 the load function; 5 name conversion",
+                              program=u["job"]["src"], origin=u["origin"], real=u["real"]), no_input=True)
+    n_fail += u_fail
+
+    def _count(evs, pred):
+        return sum((1 if pred(e) else 0) + (_count(e[6], pred) if e[0] == "decl" else 0) for e in evs)
+
+    def _use_counts(u):
+        """{path: number of use sites written} of one program"""
+        acc = {}
+
+        def go(l):
+            for e in l:
+                if e[0] == "decl":
+                    go(e[6])
+                else:
+                    acc[c08_uses.call_path(e)] = acc.get(c08_uses.call_path(e), 0) + 1
+        go(u["evs"])
+        return acc
+    uses_cov = dict(cases=len(ucases), families={f: sum(1 for u in ucases if u["origin"].split(":")[1] == f) for f in ("hand", "body", "top", "via", "self", "load", "random")},
+                    verdicts=u_verdicts, failing=u_fail, disagreements=sum(1 for v in ucodes.values() if v),
+                    declarations=sum(_count(u["evs"], lambda e: e[0] == "decl") for u in ucases),
+                    use_sites=sum(_count(u["evs"], lambda e: e[0] == "call") for u in ucases),
+                    use_sites_with_arguments=sum(_count(u["evs"], lambda e: e[0] == "call" and e[1] in ("args", "execargs")) for u in ucases),
+                    use_sites_in_execute=sum(_count(u["evs"], lambda e: e[0] == "call" and e[1] in ("exec", "execargs")) for u in ucases),
+                    templates=sum(_count(u["evs"], lambda e: e[0] == "decl" and e[2] == "template") for u in ucases),
+                    instant_calls=sum(_count(u["evs"], lambda e: e[0] == "decl" and c08_uses.kind_of(e) == "instant") for u in ucases),
+                    accepted_with_path_used_twice=sum(1 for u in ucases if u["real"][0] == "ok" and any(n >= 2 for n in _use_counts(u).values())),
+                    accepted_with_underscore_suffix_used_twice=sum(1 for u in ucases if u["real"][0] == "ok" and any(
+                        n >= 2 and p.endswith("_") and not c08_uses.is_instant_path(p) for p, n in _use_counts(u).items())),
+                    refused_redeclaration_after_use=sum(1 for u in ucases if u["real"][0] == "dup" and _use_counts(u).get(u["real"][2], 0) >= 1),
+                    instant_path_programs=sum(1 for u in ucases if any(c08_uses.is_instant_path(c08_uses.decl_path(d)) for d in c08_uses.all_decls(u["evs"]).values())))
+
     nested_cov = dict(under_class=0, top_level=0, add=0, private=0, root=0, zero_command=0, programs=0, accepted_programs=0, lazy_in_method=0)
 
     def count_nested(items, classes, in_func, acc):
@@ -1999,7 +2077,7 @@ def main(tier: str) -> int:
         rule="a case = one definition tree x configuration (namespace, pack format, #override set); non-trivial = at least two definitions",
         programs=len(cases), table_cases=sum(1 for c in cases if c["origin"].startswith("table:")), random_cases=n_rand,
         random_decorated_cases=n_rand2, type_sweep_cases=len(set(sweep)), random_lazy_cases=n_lazy,
-        lazy=lazy_coverage(cases), generated_names=gcov, declaration_sequences=decl_cov, hardcode_generated=dict(cases=len(hcases), verdicts=h_verdicts),
+        lazy=lazy_coverage(cases), generated_names=gcov, declaration_sequences=decl_cov, declarations_and_uses=uses_cov, hardcode_generated=dict(cases=len(hcases), verdicts=h_verdicts),
         zero_command_definitions=sum(1 for c in cases for _, _, o in documented_functions(c["prog"]) if o.get("body", "marker") != "marker"),
         decorated_definitions=sum(1 for c in cases for _, _, o in documented_functions(c["prog"]) if o.get("deco")),
         call_forms={f: sum(1 for c in cases if f'"{f}"' in json.dumps(c["prog"])) for f in ("sched", "exec", "with")},
@@ -2022,6 +2100,11 @@ def replay(path: str) -> int:
     r = compile_batch([job])[0]
     print("program:\n" + job["src"])
     print("expected:", rep.get("expected"))
+    if rep.get("uses_evs"):
+        rl, sp = c08_uses.real(rep["uses_evs"], r), c08_uses.spec(rep["uses_evs"])
+        print("documented verdict:", json.dumps(sp)[:1500])
+        print("actual:", json.dumps(rl)[:1500])
+        return 0 if c08_uses.same(rl, sp) else 1
     if rep.get("seq"):
         seq = [tuple(e) for e in rep["seq"]]
         real, spec = ds_real(seq, r), ds_spec(seq, True)
